@@ -6,6 +6,10 @@ use crate::parser::utils::*;
 use serde::{Deserialize, Serialize};
 use std::collections::BTreeSet;
 
+/// Two amounts are equal when they differ by less than half of the smallest unit any currency
+/// has (four decimals); 0.01 would let a difference of one cent pass.
+const AMOUNT_EPSILON: f64 = 0.00005;
+
 /// **MT204: Financial Markets Direct Debit Message**
 ///
 /// Direct debit transactions in financial markets for clearing and settlement.
@@ -178,10 +182,10 @@ impl MT204 {
         let sum_of_transactions = self.calculate_sum_of_transactions();
         let field_19_amount = self.sum_of_amounts.amount;
 
-        // Use a small epsilon for floating-point comparison (0.01 = 1 cent)
+        // Floating-point comparison with a tolerance well below the smallest currency unit
         let difference = (field_19_amount - sum_of_transactions).abs();
 
-        if difference > 0.01 {
+        if difference > AMOUNT_EPSILON {
             return Some(SwiftValidationError::content_error(
                 "C01",
                 "19",
